@@ -15,6 +15,7 @@ import (
 	"os"
 	"regexp"
 	"strings"
+	"sync/atomic"
 
 	"github.com/tobgu/qframe"
 	"github.com/tobgu/qframe/config/eval"
@@ -300,7 +301,7 @@ func (c *Clause) build() qframe.FilterClause {
 func (c *Clause) tla(qf qframe.QFrame) Ev {
 	switch c.K {
 	case "leaf":
-		e := Ev{"k": "leaf", "col": c.Col, "cmpk": c.CmpK, "cmp": c.Cmp, "inv": b2i(c.Inv), "tbl": [][]Cell{}, "argt": "", "conv": [][]Cell{}, "rx": [][]interface{}{}}
+		e := Ev{"k": "leaf", "col": c.Col, "cmpk": c.CmpK, "cmp": c.Cmp, "inv": b2i(c.Inv), "tbl": [][]Cell{}, "argt": "", "rest": "", "arity": 0, "conv": [][]Cell{}, "rx": [][]interface{}{}}
 		arg := &Val{T: "nil"}
 		if c.Arg != nil {
 			arg = c.Arg
@@ -309,8 +310,14 @@ func (c *Clause) tla(qf qframe.QFrame) Ev {
 		ct := colType(qf, c.Col.String())
 		if c.CmpK == "fn1" || c.CmpK == "fn2" {
 			fe := fnReg[c.Cmp]
-			e["argt"] = fe.ArgT
-			if ct != "" && fnType(ct) == fe.ArgT {
+			e["argt"], e["rest"], e["arity"] = fe.ArgT, fe.ResT, fe.Arity
+			wantArity := 1
+			if c.CmpK == "fn2" {
+				wantArity = 2
+			}
+			if fe.Arity != wantArity || fe.ResT != "bool" {
+				// not a predicate of the required shape: nothing to tabulate, the call must fail
+			} else if ct != "" && fnType(ct) == fe.ArgT {
 				t := newTable(c.Cmp)
 				if c.CmpK == "fn1" {
 					for _, v := range colVals(qf, c.Col.String()) {
@@ -327,6 +334,19 @@ func (c *Clause) tla(qf qframe.QFrame) Ev {
 					}
 				}
 				e["tbl"] = t.Rows
+			}
+			// int <-> float column pairs are compared as floats (the int column is promoted)
+			if c.CmpK == "fn2" && arg.T == "col" && fe.ArgT == "float" && fe.Arity == 2 && fe.ResT == "bool" {
+				at := colType(qf, arg.S.String())
+				if (ct == "int" && at == "float") || (ct == "float" && at == "int") {
+					t := newTable(c.Cmp)
+					a := promote(colVals(qf, c.Col.String()))
+					b := promote(colVals(qf, arg.S.String()))
+					for i := range a {
+						t.add([]GV{a[i], b[i]})
+					}
+					e["tbl"] = t.Rows
+				}
 			}
 		}
 		if c.CmpK == "str" && (c.Cmp == "like" || c.Cmp == "ilike") && arg.T == "string" && (ct == "string" || ct == "enum") {
@@ -409,6 +429,18 @@ func likeTables(e Ev, ci bool, pat string, vals []GV) {
 		}
 	}
 	e["rx"] = rx
+}
+
+func promote(vals []GV) []GV {
+	r := make([]GV, len(vals))
+	for i, v := range vals {
+		if iv, ok := v.(int); ok {
+			r[i] = float64(iv)
+		} else {
+			r[i] = v
+		}
+	}
+	return r
 }
 
 func convTable(vals []GV) [][]Cell {
@@ -888,8 +920,10 @@ func (x *Exec) runStep(sc *Scenario, st *Step) {
 	nF, nG, nV := len(x.frames), len(x.groupers), len(x.views)
 	ev := Ev{"scn": x.scn, "prop": sc.Prop, "i": x.step, "op": st.Op, "recv": st.Recv, "out": -1, "pan": 0,
 		"obs": emptyObs, "dig": 0, "a": Ev{"_": 0}}
+	calls0 := atomic.LoadInt64(&callCount)
 	func() {
 		defer func() {
+			ev["calls"] = int(atomic.LoadInt64(&callCount) - calls0)
 			if r := recover(); r != nil {
 				ev["pan"] = 1
 				ev["panmsg"] = fmt.Sprint(r)
